@@ -12,9 +12,17 @@ unchanged" and "the structured state is unchanged" are the same statement.
 
 *Model side.*  `PathM` mirrors `StandardPath` (no reserved bits; `u8` pointers; up to three segments).
 
-Every operation that mutates a view returns the *state after the call together with the result*, also
-on the error path, so that failure-atomicity is a theorem about the code's order of effects and not
-true by construction.  Bit ranges, sizes, limits and flag bits come from `Generated/StdPath.lean`.
+Every mutating operation is modelled **twice**.  (i) As a *statement sequence* over the mutable receiver
+(`Imp`, section "statement sequences"): reads, `?`/`return` exits and writes through `&mut self` in the
+order of the Rust source; an exit hands back the receiver *as it has been written so far*, so failure
+atomicity of these definitions (`ingressImp`, `egressImp`, `reverseViewImp`, `reverseModelImp`, the one-hop
+ones) is a statement about the order of effects.  The driver runs these.  The source order of exits, panic
+sites and writes of every modelled Rust function is re-extracted by the translator on every run
+(`Generated.StdPath.EFFECTS_*`) and compared with the order written down next to each definition
+(`*.effects`).  (ii) As a closed *summary* (`advanceIngress`, `advanceEgress`, `reverseView`, …: result and
+final state as one expression; here an error branch returns the input by construction).  The theorems
+`*_eq` (`Lemmas/StdPath.lean`) prove that (i) computes (ii); everything else is stated over (ii).
+Bit ranges, sizes, limits and flag bits come from `Generated/StdPath.lean`.
 
 Core-only (no Mathlib) so that the driver links as a native executable.
 -/
@@ -23,6 +31,41 @@ open ScionVerif.Generated.StdPath
 open ScionVerif.Mac (betaStep MacInput MacFn)
 
 abbrev Bytes := List UInt8
+
+/-! ## statement sequences over a mutable receiver -/
+
+/-- A sequence of Rust statements of a `&mut self` method.  Started in a receiver state it either runs to
+its end (`Sum.inr a`) or leaves the method early with the method's result (`Sum.inl r`: the error arm of a
+`?`, a `return`, a panic) – **in both cases together with the receiver as it has been written so far**. -/
+def Imp (σ ρ α : Type) : Type := σ → σ × Sum ρ α
+
+namespace Imp
+variable {σ ρ α β : Type}
+@[inline] protected def pure (a : α) : Imp σ ρ α := fun s => (s, .inr a)
+@[inline] protected def bind (m : Imp σ ρ α) (f : α → Imp σ ρ β) : Imp σ ρ β := fun s =>
+  match m s with
+  | (s', .inl r) => (s', .inl r)
+  | (s', .inr a) => f a s'
+instance : Monad (Imp σ ρ) where
+  pure := Imp.pure
+  bind := Imp.bind
+/-- `return r`, the error arm of `?`, or a panic site that fires -/
+def exit (r : ρ) : Imp σ ρ α := fun s => (s, .inl r)
+/-- a read of the receiver -/
+def get : Imp σ ρ σ := fun s => (s, .inr s)
+/-- a write through `&mut self` -/
+def write (f : σ → σ) : Imp σ ρ Unit := fun s => (f s, .inr ())
+/-- `opt.ok_or(r)?` -/
+def orExit (o : Option α) (r : ρ) : Imp σ ρ α :=
+  match o with
+  | some a => Imp.pure a
+  | none => exit r
+/-- run a method body whose last expression is the method's result -/
+def run (m : Imp σ ρ ρ) (s : σ) : σ × ρ :=
+  match m s with
+  | (s', .inl r) => (s', r)
+  | (s', .inr r) => (s', r)
+end Imp
 
 /-! ## bytes ↔ numbers -/
 
@@ -275,6 +318,43 @@ def reverseViewPreFix (p : PathV) : PathV × Except RevErr Unit :=
   if segCountNZ p.seg1 p.seg2 ≤ p.currInf then (p1, .error .infoOob) else
   (reversedState p, .ok ())
 
+/-- `StandardPathView::try_reverse`, statement by statement (reads of the five meta fields, the `match` with
+its early return, the two validity checks, then the writes: segment lengths, info fields, hop fields, both
+pointers – the pointer writes go through the 6-bit / 2-bit fields). -/
+def reverseViewImp : Imp PathV (Except RevErr Unit) (Except RevErr Unit) := do
+  let s ← Imp.get
+  let seg0 := s.seg0
+  let seg1 := s.seg1
+  let seg2 := s.seg2
+  let ch := s.currHf
+  let ci := s.currInf
+  if seg0 = 0 then Imp.exit (.error .noSegments) else
+  let segCount := segCountNZ seg1 seg2
+  let total := seg0 + seg1 + seg2
+  if total ≤ ch then Imp.exit (.error .hopOob) else
+  if segCount ≤ ci then Imp.exit (.error .infoOob) else do
+  (if segCount = 1 then Imp.pure ()
+   else if segCount = 2 then do
+     Imp.write fun s => { s with seg0 := seg1 }
+     Imp.write fun s => { s with seg1 := seg0 }
+   else do
+     Imp.write fun s => { s with seg0 := seg2 }
+     Imp.write fun s => { s with seg1 := seg1 }
+     Imp.write fun s => { s with seg2 := seg0 })
+  Imp.write fun s => { s with infos := (s.infos.map InfoF.toggle).reverse }
+  Imp.write fun s => { s with hops := s.hops.reverse }
+  Imp.write fun s => { s with currHf := (total - ch - 1) % 2 ^ META_CURR_HOP_FIELD_WIDTH }
+  Imp.write fun s => { s with currInf := (segCount - ci - 1) % 2 ^ META_CURR_INFO_FIELD_WIDTH }
+  pure (.ok ())
+
+/-- source order of exits (`exit`), panic sites (`panic`) and receiver writes (`write:…`) of
+`StandardPathView::try_reverse` as mirrored by `reverseViewImp`; compared with the translator's extraction
+(`Generated.StdPath.EFFECTS_VIEW_TRY_REVERSE`) in `Theorems/C12.lean` -/
+def reverseViewImp.effects : List String :=
+  ["exit", "exit", "exit", "write:set_seg0_len", "write:set_seg1_len", "write:set_seg0_len", "write:set_seg1_len",
+   "write:set_seg2_len", "panic", "panic", "write:info_fields_mut", "write:hop_fields_mut", "write:set_curr_hop_field",
+   "write:set_curr_info_field"]
+
 /-! ## the owned model (`StandardPath`) -/
 
 /-- `InfoField` (no reserved byte) -/
@@ -329,6 +409,28 @@ def reverseModel (m : PathM) : PathM × Except RevErr Unit :=
   ({ segs := reversedSegs m.segs
      currHf := (((reversedSegs m.segs).map (·.hops.length)).sum - m.currHf - 1) % 256
      currInf := (m.segs.length - m.currInf - 1) % 256 }, .ok ())
+
+/-- `StandardPath::try_reverse`, statement by statement -/
+def reverseModelImp : Imp PathM (Except RevErr Unit) (Except RevErr Unit) := do
+  let s ← Imp.get
+  let segCount := s.segs.length
+  if segCount = 0 then Imp.exit (.error .noSegments) else
+  if s.hopCount ≤ s.currHf then Imp.exit (.error .hopOob) else
+  if segCount ≤ s.currInf then Imp.exit (.error .infoOob) else do
+  Imp.write fun s => { s with segs := s.segs.map (fun x => { x with info := x.info.toggle }) }
+  Imp.write fun s => { s with segs := s.segs.reverse }
+  Imp.write fun s => { s with segs := s.segs.map (fun x => { x with hops := x.hops.reverse }) }
+  let s' ← Imp.get
+  let total := s'.hopCount
+  let newHop := total - s'.currHf - 1
+  let newInfo := segCount - s'.currInf - 1
+  Imp.write fun s => { s with currHf := newHop % 256 }
+  Imp.write fun s => { s with currInf := newInfo % 256 }
+  pure (.ok ())
+
+def reverseModelImp.effects : List String :=
+  ["exit", "exit", "exit", "write:segments.iter_mut", "write:segments.reverse", "write:segments.iter_mut",
+   "write:current_hop_field", "write:current_info_field"]
 
 /-- `StandardPath::expiration`: `0` as soon as a segment without hop fields is met, `u32::MAX` for a path
 without segments -/
@@ -536,6 +638,85 @@ def advanceEgress (val : Validator) (p : PathV) : PathV × AdvRes EgrOut :=
          .ok { alert := egressAlert hop.flags (consDir info.flags), egressIf := hop1.egressIf info1
                valid := val.hop p.currHf hop info sos eos })
 
+/-! ### the two advance functions as statement sequences -/
+
+/-- `*self.info_field_mut(ci).expect(..) = info` -/
+def setInfoOrPanic {α : Type} (ci : Nat) (info : InfoF) : Imp PathV (AdvRes α) Unit := do
+  let s ← Imp.get
+  if ci < s.infoCount ∧ ci < s.infos.length then Imp.write fun s => { s with infos := s.infos.set ci info }
+  else Imp.exit .panic
+
+/-- `*self.hop_field_mut(ch).expect(..) = hop` -/
+def setHopOrPanic {α : Type} (ch : Nat) (hop : HopF) : Imp PathV (AdvRes α) Unit := do
+  let s ← Imp.get
+  if ch < s.hopCount ∧ ch < s.hops.length then Imp.write fun s => { s with hops := s.hops.set ch hop }
+  else Imp.exit .panic
+
+/-- `advance_ingress_with_validator` in the statement order of `routing.rs`: extraction and checks (every `?` /
+`return Err` leaves with the receiver as it is at that point), work on the two *copies*, the `match` whose
+segment-change arm has three more exits and then writes both pointers, finally the commit of the copies. -/
+def ingressImp (val : Validator) (fromInternal : Bool) : Imp PathV (AdvRes IngOut) (AdvRes IngOut) := do
+  let s ← Imp.get
+  let hopCount := s.hopCount
+  let ch := s.currHf
+  let ci := s.currInf
+  let (seg, sos, eos) ← Imp.orExit (s.segIndex ch) (.err (.hopOob ch))
+  if sos && eos then Imp.exit (.err .single) else
+  if seg ≠ ci then Imp.exit (.err (.segIdx seg ci)) else do
+  let isFinal := decide (ch + 1 ≥ hopCount)
+  let hop ← Imp.orExit ((← Imp.get).hopAt ch) (.err (.hopOob ch))
+  let info ← Imp.orExit ((← Imp.get).infoAt ci) (.err (.infoOob ci))
+  let info1 := ingInfo fromInternal hop info
+  let v1 := val.hop ch hop info1 sos eos
+  let alert := ingressAlert hop.flags (consDir info.flags)
+  let hop1 := ingHop fromInternal hop info
+  let out ← (match isFinal, eos with
+    | true, true => Imp.pure { alert, ingressIf := hop.ingressIf info, action := .forwardLocal, valid := v1 }
+    | false, false =>
+      Imp.pure { alert, ingressIf := hop.ingressIf info, action := .continueEgress (hop1.egressIf info1), valid := v1 }
+    | false, true =>
+      if ch + 1 > MAX_TOTAL_HOPS then Imp.exit (.err (.hopOob (ch + 1))) else do
+      let nh ← Imp.orExit ((← Imp.get).hopAt (ch + 1)) (.err (.hopOob (ch + 1)))
+      let ni ← Imp.orExit ((← Imp.get).infoAt (seg + 1)) (.err (.infoOob (seg + 1)))
+      let v := v1 && val.segChange ch hop1 info1 nh ni && val.hop (ch + 1) nh ni true false
+      Imp.write fun s => { s with currHf := (ch + 1) % 2 ^ META_CURR_HOP_FIELD_WIDTH }
+      Imp.write fun s => { s with currInf := (seg + 1) % 2 ^ META_CURR_INFO_FIELD_WIDTH }
+      Imp.pure { alert, ingressIf := hop.ingressIf info, action := .continueEgress (nh.egressIf ni), valid := v }
+    | true, false => Imp.exit .panic : Imp PathV (AdvRes IngOut) IngOut)
+  setInfoOrPanic ci info1
+  setHopOrPanic ch hop1
+  pure (.ok out)
+
+def ingressImp.effects : List String :=
+  ["exit", "exit", "exit", "exit", "exit", "exit", "exit", "exit", "write:set_curr_hop_field", "write:set_curr_info_field",
+   "panic", "write:info_field_mut", "panic", "write:hop_field_mut", "panic"]
+
+/-- `advance_egress_with_validator` in the statement order of `routing.rs` -/
+def egressImp (val : Validator) : Imp PathV (AdvRes EgrOut) (AdvRes EgrOut) := do
+  let s ← Imp.get
+  let hopCount := s.hopCount
+  let ch := s.currHf
+  let ci := s.currInf
+  let (seg, sos, eos) ← Imp.orExit (s.segIndex ch) (.err (.hopOob ch))
+  if seg ≠ ci then Imp.exit (.err (.segIdx seg ci)) else do
+  let hop ← Imp.orExit ((← Imp.get).hopAt ch) (.err (.hopOob ch))
+  let info ← Imp.orExit ((← Imp.get).infoAt ci) (.err (.infoOob ci))
+  if ch + 1 ≥ hopCount then Imp.exit (.err (.hopOob (ch + 1))) else
+  if ch + 1 > MAX_TOTAL_HOPS then Imp.exit (.err (.hopOob (ch + 1))) else
+  if eos then Imp.exit (.err .segEnd) else
+  if seg ≠ ci then Imp.exit (.err (.segIdx seg ci)) else do
+  let v := val.hop ch hop info sos eos
+  let info1 := egrInfo hop info
+  let hop1 := egrHop hop info
+  setInfoOrPanic ci info1
+  setHopOrPanic ch hop1
+  Imp.write fun s => { s with currHf := (ch + 1) % 2 ^ META_CURR_HOP_FIELD_WIDTH }
+  pure (.ok { alert := egressAlert hop.flags (consDir info.flags), egressIf := hop1.egressIf info1, valid := v })
+
+def egressImp.effects : List String :=
+  ["exit", "exit", "exit", "exit", "exit", "exit", "exit", "exit", "write:info_field_mut", "panic",
+   "write:hop_field_mut", "panic", "write:set_curr_hop_field"]
+
 /-! ## `ScionPath::try_reverse` (`scion/path.rs`) -/
 
 /-- `ScionPath` with a standard data-plane path; metadata and fingerprints are opaque -/
@@ -555,6 +736,14 @@ def scionPathTryReverse {Meta FP : Type} (revMeta : Meta → Meta) (fpOf : PathV
   | (dp', .error e) => ({ s with dp := dp' }, .error e)
   | (dp', .ok ()) =>
     ({ src := s.dst, dst := s.src, dp := dp', metadata := s.metadata.map revMeta, nextHop := none, fp := fpOf dp' s.dst s.src }, .ok ())
+
+/-- `ScionPath::try_reverse`: the only exit is the `?` on the data-plane path reversal, before any other write -/
+def scionPathTryReverse.effects : List String :=
+  ["exit", "write:mem_swap", "write:next_hop", "write:metadata.as_mut", "write:_cp_fingerprint", "write:_fingerprint"]
+
+/-- all early exits of a function precede all of its writes through the receiver (in source order) -/
+def exitsBeforeWrites (effects : List String) : Bool :=
+  (effects.dropWhile (fun e => e == "exit" || e == "panic")).all (fun e => e != "exit")
 
 /-! ## byte-level wrappers used by the driver and by the byte-level theorems -/
 
